@@ -397,6 +397,9 @@ class Translator:
                     return self.alloc(t2, name, dims, storage, generics)
             d = self.src.defs.get(ty.name)
             if d:
+                if generics and ty.args and any(a.kind == "path" and not a.args and a.name in generics for a in ty.args):
+                    # a generic parameter of the enclosing definition used as a type argument: substitute it
+                    ty = Ty("path", name=ty.name, args=[generics[a.name] if (a.kind == "path" and not a.args and a.name in generics) else a for a in ty.args])
                 return self.alloc_def(d, ty, name, dims, storage)
         for pat in self.cfg.get("opaque_types", []):
             if re.search(pat, getattr(ty, "full", "") or ty.name or ""):
